@@ -205,6 +205,18 @@ class C19(Check):
                         path = "%s/%s/Zq%d.1.0.dsdl" % (d, rng.choice(["bad-dir", "uint8", "_x_", "UPPER", "9lives"]), rng.randint(0, 9))
                     else:
                         path = "%s/Zq%d.%d.%d.dsdl" % (d, rng.randint(0, 9), rng.choice([0, 1, 255, 256, 999]), rng.choice([0, 1, 300]))
+                    svcs = [k0 for k0 in sorted(closure) if T.is_service(uni.defs[k0])]
+                    if svcs and rng.random() < 0.25:
+                        # an unreferenced definition in a nested namespace named exactly like a service of the closure, with the short
+                        # name of one of the service's implicit section types (Svc/Request.1.0.dsdl next to Svc.1.0.dsdl)
+                        k0 = rng.choice(svcs)
+                        comps0 = uni.defs[k0]["name"].split(".")
+                        vv = rng.choice([list(uni.defs[k0]["ver"]), [1, 0], [uni.defs[k0]["ver"][0], 7]])
+                        leaf = "%s/%s.%d.%d.dsdl" % (comps0[-1], rng.choice(["Request", "Response"]), vv[0], vv[1])
+                        if not is_rn:
+                            path = uni.file_of(k0).rsplit("/", 1)[0] + "/" + leaf
+                        elif twin_dir and uni.root_of[k0] == ri:
+                            path = "/".join([twin_dir] + comps0[1:-1] + [leaf])
                     if decode_path(uni, path) in closure_ids or path in {uni.file_of(k) for k in closure}:
                         continue
                     if scn.get("protected") and decode_path(uni, path) == tuple(scn["protected"]):
